@@ -521,16 +521,23 @@ def _sha256(ip, fv, args, kwargs, pure):
     v = args[0]
     if not isbyteslike(v):
         raise Raise("TypeError")
+    if isinstance(v, bytes) and getattr(ip.ctx.verifier, "concrete_mode", False):
+        import hashlib
+        return SOpaque("sha256obj", hashlib.sha256(v).digest())
     return SOpaque("sha256obj", sym.SHA(Bt(v)))
 
 
 @model("sha256obj.digest")
 def _digest(ip, fv, args, kwargs, pure):
+    if isinstance(fv.bound.data, bytes):
+        return fv.bound.data
     return SBytes(fv.bound.data)
 
 
 @model("sha256obj.hexdigest")
 def _hexdigest(ip, fv, args, kwargs, pure):
+    if isinstance(fv.bound.data, bytes):
+        return fv.bound.data.hex()
     return SStr(sym.HEXL(fv.bound.data))
 
 
@@ -567,6 +574,12 @@ def _derive(ip, fv, args, kwargs, pure):
     ikm = args[0]
     if not isbyteslike(ikm):
         raise Raise("TypeError")
+    if isinstance(ikm, bytes) and isinstance(length, int) and getattr(ip.ctx.verifier, "concrete_mode", False):
+        import sys as _s, os as _o
+        _s.path.insert(0, _o.path.dirname(_o.path.dirname(_o.path.abspath(__file__)))) if _o.path.dirname(_o.path.dirname(_o.path.abspath(__file__))) not in _s.path else None
+        from spec import concrete as _C
+        sl, inf = ip.lit_of(salt), ip.lit_of(info)
+        return _C.hkdf(ikm, sl, inf, length)
     return SBytes(sym.HKDF(Bt(ikm), salt, info, length if isinstance(length, int) else I(length)))
 
 
@@ -639,3 +652,19 @@ def _loads(ip, fv, args, kwargs, pure):
     if isinstance(v, SOpaque) and v.kind == "jsontext":
         return dict(v.data)
     raise Unsupported("json.loads of text that is not a modelled JSON object")
+
+
+@model("list.append")
+def _append(ip, fv, args, kwargs, pure):
+    _nargs(args, 1, "append")
+    fv.bound.append(args[0])
+    return None
+
+
+@model("list.extend")
+def _extend(ip, fv, args, kwargs, pure):
+    _nargs(args, 1, "extend")
+    if not isinstance(args[0], (list, tuple)):
+        raise Unsupported("extend with %r" % (args[0],))
+    fv.bound.extend(args[0])
+    return None
